@@ -81,12 +81,41 @@ def make_scenario(mod, tier, master, idx):
     return scn
 
 
+_GUARD = None
+
+
 def execute_guarded(mod, scn, L):
     """Returns (outcome, harness_error_text)."""
+    global _GUARD
+
+    if _GUARD is None:
+        from dsim import globals_guard
+        _GUARD = globals_guard.Guard(L)
+
     signal.setitimer(signal.ITIMER_VIRTUAL, RUN_CPU_CAP_S)
 
     try:
         out = mod.execute(scn, L)
+        changed = _GUARD.check_and_restore()
+
+        if changed:
+            # the run mutated a table / class-level default shared by every
+            # user in the process; it is reported where it happened and
+            # undone, so that no later run depends on it
+            out.probe('process_global_state_changed')
+            tables = [c for c in changed if c in (
+                'VALID_SECTION_STATES', 'CONTENT_SECTIONS', 'META_SECTIONS',
+                'PREAMBLE_SECTIONS')]
+
+            # a verdict only where the statement covers it: C18 (no shared
+            # mutable state, class-level defaults included) and the section
+            # hierarchy tables for the two properties that are defined by
+            # them (C09 writer order, C10 reader order); elsewhere the state
+            # is restored and only counted
+            if mod.ID == 'C18' or (mod.ID in ('C09', 'C10') and tables):
+                out.violate('%s.process-global-state-mutated' % mod.ID,
+                            (tables or changed)[0], {'changed': changed})
+
         return out, None
     except SimHang:
         oracle = getattr(mod, 'HANG_ORACLE', None)
@@ -105,6 +134,9 @@ def execute_guarded(mod, scn, L):
         return None, traceback.format_exc()
     finally:
         signal.setitimer(signal.ITIMER_VIRTUAL, 0)
+
+        if _GUARD is not None:
+            _GUARD.check_and_restore()
 
 
 def new_agg():
